@@ -121,7 +121,7 @@ def _authn():
                    "[url] / [url, url2] (PARAM)")
 def ob_check_auth_event(ok: bool, kind: int, created_at: int, now: int, sels: List[int]) -> str:
     """
-    pre: len(sels) <= NT and all(0 <= s < 13 for s in sels)
+    pre: len(sels) <= NT and all(0 <= s < 13 for s in sels) and (len(sels) < 3 or sels[2] in (0, 1, 6, 7, 11))
     pre: 0 <= kind < 100000 and 1 <= created_at < 4294967296 and 0 <= now < 4294967296
     post: _.startswith("ok")
     """
